@@ -51,7 +51,7 @@ CHECKS = {
         category="model_checking",
         technique=E1 + "; scripted controller (per-zone schedule version history + change counter) as reference model",
         text="Every schedule with <= D deviations (D=2 for one transfer, D=1 for 2-3 concurrent transfers and the time-out sweep; thorough D=3/2) of the real "
-        "Gateway + Schedule/ScheduleSync + QoS FSM on the virtual loop against a scripted controller. Choice points: the fate of every transmission (ok / "
+        "Gateway + Schedule/ScheduleSync + QoS FSM on the virtual loop against a scripted controller. Choice points: the fate of every transmission (whole exchange lost / every reply of the exchange lost / ok / "
         "reply lost / transmission lost / reply twice / reply after the retransmission timer) and, between any two exchanges, an environment event (the "
         "schedule of this or another zone changes at the controller with the same or another fragment count / any fragment of any zone is overheard / the "
         "caller abandons). Scenario product: get and set x zones 01, 02, DHW x fragment counts 1-3 x force_io x cold / cached / cached-then-changed / "
@@ -70,7 +70,8 @@ CHECKS = {
         text="All histories of depth 3 (thorough 4) over five letter groups - per-zone RP, array I over three zone subsets, device broadcasts; zones "
         "00/01/0B, two values, two devices; each group holds every letter that touches one attribute family plus interleaved letters for other zones and "
         "codes - fed to a real Gateway with a configured schema: after every step every attribute named by the reference model equals the value of the "
-        "newest message for it. Expiry: one frame per message kind x 8 clock offsets around L and 2L (fresh object and same object, so memoisation is "
+        "newest message for it. Expiry: one frame per message kind (+ an RP|3220 for every OpenTherm data-id) x 8 clock offsets around L and 2L, L taken "
+        "from a reference table of lifetimes per kind copied into the check (fresh object and same object, so memoisation is "
         "covered) and all 65,536 sync-cycle countdown words; at attribute level, after 2L+30 s the value must read unknown on the first and later reads.",
         design_ref="4/C14",
         note="A kind's lifetime L is the library's own table (1F09: the countdown in the payload); grace after 2L up to 10 s; the stale first read after expiry is a recorded finding.",
@@ -182,7 +183,8 @@ CHECKS = {
         "FaultLog: new entry with announcement delivered or lost, solicited reply for any position (incl. null), read-through (limit 64 and 2) by the "
         "real get_faultlog() on the virtual loop against a scripted controller, read-through with the k-th request failing, read-through during which "
         "a new entry arrives; invariants in every state (views never raise, newest-first, no entry twice, only reported entries), read-through equality, "
-        "announcement pushes known entries down; plus a 70-entry history for the 64-slot limit.",
+        "announcement pushes known entries down; a second BFS from non-initial states (the controller already holds 4-5 / 5-6 entries unknown to the "
+        "library) to depth 5 (7) with log depth <= 6 (8); plus a 70-entry history and full 64-/66-entry logs read from scratch for the 64-slot limit.",
         design_ref="4/C19",
         note="Dedup on (controller log, FaultLog._map, FaultLog._log keys, _is_getting); timestamps unique and increasing; the dispatcher hands each RP to handle_msg before get_faultlog processes it.",
     ),
@@ -233,10 +235,13 @@ CHECKS = {
     "C07": dict(
         engine="E1-sched",
         category="model_checking",
-        technique=E1,
+        technique=E1 + "; plus explicit-state breadth-first search with state hashing over the same real world (any number of deviations of the kinds named per scenario)",
         text="Every schedule with <= D deviations (D=1 on the full QoS product, D=2 per command kind and for 2-3 concurrent callers; thorough D=3/2) "
         "of the real PortProtocol.send_cmd/ProtocolContext on a virtual loop: each caller finishes within min(timeout,20)+notice with its own echo/"
-        "reply or a ProtocolError. The suite runs a handful of real-time flows; this enumerates the interleavings of packets, timers, faults and callers.",
+        "reply or a ProtocolError. The suite runs a handful of real-time flows; this enumerates the interleavings of packets, timers, faults and callers. "
+        "State-hashing BFS (18 graphs quick, all closed): every schedule with ANY number of losses / duplicates / late packets / third-party look-alikes / "
+        "failed writes / disconnects for 1-3 callers, each caller judged on the transition on which it ends. Scenario inputs also cover the wall clock the "
+        "send queue used (1 ms resolution, step back) and one QosParams object shared by consecutive commands under each gateway QoS mode.",
         design_ref="4/C07, 2",
         note="Trusted: asyncio Task/Future semantics on the hand-stepped loop; loop lateness <= 1 ms; environment = scripted echo/reply generator + foreign near-miss packets. "
         "A reply addressed to another gateway but with the same device/code/context is accepted as belonging (DESIGN 5).",
@@ -247,7 +252,7 @@ CHECKS = {
         technique=E1,
         text="All loss patterns over the attempts of one command (drop-only schedules to D=4 quick / D=8 thorough = every subset), max_retries 0..5 x "
         "time-outs around each back-off deadline, all 3^N priority assignments for N<=4 queued commands, queued time-outs, late arrivals, 33 callers; "
-        "oracle on the (event#, virtual time, frame) sequence handed to transport.write_frame.",
+        "the wall clock the queue stamped entries with reading alike / set back; oracle on the (event#, virtual time, frame) sequence handed to transport.write_frame.",
         design_ref="4/C08",
         note="Back-off after an attempt whose echo arrived is only bounded (statement ambiguous, DESIGN 5); 'queued before' needs >= 3 loop iterations of lead; frames distinct per caller for attribution.",
     ),
